@@ -746,6 +746,182 @@ func (m modelSpec) leakArgs(env, cores map[string]string, layout string) leakArg
 	return a
 }
 
+// dotenvQuote writes v as a single-quoted dotenv value (taken literally, may span lines; `\'` stands for a quote).
+// Outside this encoding: a carriage return (the reader normalises line ends), a backslash before a quote or at the end.
+func dotenvQuote(v string) (string, bool) {
+	if strings.Contains(v, "\r") || strings.Contains(v, "\\'") || strings.HasSuffix(v, "\\") {
+		return "", false
+	}
+	return "'" + strings.ReplaceAll(v, "'", "\\'") + "'", true
+}
+
+// leakArgsIncEnv: the include-env layout.  The secrets (all of them, or a random subset when r != nil) and, for
+// cfgInc, the configs are declared in mod/compose.yaml, included with an environment of its own: `env_file:` of the
+// include entry (long syntax) or the .env of the included project directory (short syntax).  Each variable of an
+// included environment resource is defined at the top only, in the include's env file only (moved there), in both
+// (the top value wins; the shadowed one must appear nowhere) or nowhere.  The included model resolves its secrets
+// with top ∪ env file; the including model then resolves the imported secrets a second time with top alone.
+func (m modelSpec) leakArgsIncEnv(env, cores map[string]string, modes func(v string) int, longSyntax, cfgInc bool, r *rand.Rand, count func(string)) leakArgs {
+	env2, cores2 := map[string]string{}, map[string]string{}
+	for k, v := range env {
+		env2[k] = v
+	}
+	for k, v := range cores {
+		cores2[k] = v
+	}
+	a := leakArgs{Env: env2, Cores: cores2, PName: m.pname, Files: map[string]json.RawMessage{}, RawFiles: map[string]string{},
+		IncEnv: map[string]string{}, IncCores: map[string]string{}}
+	d := m.main()
+	inc := tree{}
+	incN := 20000
+	done := map[string]bool{}
+	place := func(v string) {
+		if done[v] || v == "" {
+			return
+		}
+		done[v] = true
+		mode := modes(v)
+		if _, set := env2[v]; !set {
+			if mode == 1 { // unset at the top, defined by the include only
+				incN++
+				a.IncEnv[v], a.IncCores[v] = canary(incN, c20Deco[(incN*7)%len(c20Deco)])
+				count("leak-incenv-var-inc-only")
+			} else {
+				count("leak-incenv-var-unset")
+			}
+			return
+		}
+		switch mode {
+		case 1: // moved to the include's env file
+			a.IncEnv[v], a.IncCores[v] = env2[v], cores2[v]
+			delete(env2, v)
+			delete(cores2, v)
+			count("leak-incenv-var-inc-only")
+		case 2: // both: the top value wins
+			incN++
+			a.IncEnv[v], a.IncCores[v] = canary(incN, c20Deco[(incN*5)%len(c20Deco)])
+			count("leak-incenv-var-both")
+		default:
+			count("leak-incenv-var-top-only")
+		}
+	}
+	secs, _ := d["secrets"].(tree)
+	incSecs := tree{}
+	for _, s := range m.secrets {
+		in := r == nil || r.Intn(4) != 0
+		if in {
+			incSecs[s.name] = secs[s.name]
+			delete(secs, s.name)
+			if s.kind == "environment" {
+				place(s.varn)
+			}
+		}
+		a.Secrets = append(a.Secrets, leakRes{Name: s.name, Kind: s.kind, Var: s.varn, Inc: in})
+	}
+	if len(secs) == 0 {
+		delete(d, "secrets")
+	}
+	if len(incSecs) > 0 {
+		inc["secrets"] = incSecs
+	}
+	cfgs, _ := d["configs"].(tree)
+	incCfgs := tree{}
+	for _, c := range m.configs {
+		in := cfgInc && (r == nil || r.Intn(3) != 0)
+		if in {
+			incCfgs[c.name] = cfgs[c.name]
+			delete(cfgs, c.name)
+			if c.kind == "environment" {
+				place(c.varn)
+			}
+		}
+		a.Configs = append(a.Configs, leakRes{Name: c.name, Kind: c.kind, Var: c.varn, Inc: in})
+	}
+	if len(cfgs) == 0 {
+		delete(d, "configs")
+	}
+	if len(incCfgs) > 0 {
+		inc["configs"] = incCfgs
+	}
+	if len(inc) == 0 {
+		inc["services"] = tree{"inc": tree{"image": "i"}}
+	}
+	// a variable only the include's env file defines and nobody names
+	incN++
+	a.IncEnv["INC_UNUSED"], a.IncCores["INC_UNUSED"] = canary(incN, c20Deco[(incN*3)%len(c20Deco)])
+	var b strings.Builder
+	b.WriteString("# environment of the included project\n")
+	for _, v := range sortedKeys(a.IncEnv) {
+		q, ok := dotenvQuote(a.IncEnv[v])
+		if !ok { // keep the core, drop the decoration the dotenv syntax cannot carry
+			a.IncEnv[v] = a.IncCores[v]
+			q, _ = dotenvQuote(a.IncEnv[v])
+			count("leak-incenv-value-undecorated")
+		}
+		b.WriteString(v + "=" + q + "\n")
+	}
+	if longSyntax {
+		d["include"] = []any{tree{"path": "mod/compose.yaml", "env_file": "mod/mod.env"}}
+		a.RawFiles["mod/mod.env"] = b.String()
+	} else {
+		d["include"] = []any{"mod/compose.yaml"}
+		a.RawFiles["mod/.env"] = b.String()
+	}
+	a.Files["compose.yaml"], a.Files["mod/compose.yaml"] = enc(d), enc(inc)
+	a.ConfigFiles = []string{"compose.yaml"}
+	return a
+}
+
+// nestIncEnv turns an include-env case into a two-level one: compose.yaml includes mod/compose.yaml (environment:
+// mod/.env), which includes mod/inner/compose.yaml (environment: inner/inner.env or inner/.env) where the resources are.
+// Every variable of the include's env file goes to the middle file, the inner one, or both (the middle value wins; the
+// shadowed inner value, a canary of its own, must appear nowhere).  The innermost model is resolved three times.
+func nestIncEnv(a leakArgs, pick func(n int) int, count func(string)) leakArgs {
+	txt, ok := a.RawFiles["mod/.env"]
+	if !ok {
+		txt = a.RawFiles["mod/mod.env"]
+	}
+	_ = txt
+	main := core.DecodeValRaw(a.Files["compose.yaml"]).(map[string]any)
+	main["include"] = []any{"mod/compose.yaml"}
+	innerLong := pick(2) == 0
+	mid := tree{}
+	if innerLong {
+		mid["include"] = []any{tree{"path": "inner/compose.yaml", "env_file": "inner/inner.env"}}
+	} else {
+		mid["include"] = []any{"inner/compose.yaml"}
+	}
+	var mb, ib strings.Builder
+	shadowN := 30000
+	for _, v := range sortedKeys(a.IncEnv) {
+		q, _ := dotenvQuote(a.IncEnv[v])
+		switch pick(3) {
+		case 0:
+			mb.WriteString(v + "=" + q + "\n")
+			count("leak-nested-var-middle")
+		case 1:
+			ib.WriteString(v + "=" + q + "\n")
+			count("leak-nested-var-inner")
+		default:
+			mb.WriteString(v + "=" + q + "\n")
+			shadowN++
+			sv, sc := canary(shadowN, c20Deco[0])
+			ib.WriteString(v + "='" + sv + "'\n")
+			a.IncEnv["shadow:"+v], a.IncCores["shadow:"+v] = sv, sc
+			count("leak-nested-var-both")
+		}
+	}
+	a.Files["mod/inner/compose.yaml"] = a.Files["mod/compose.yaml"]
+	a.Files["compose.yaml"], a.Files["mod/compose.yaml"] = enc(main), enc(mid)
+	a.RawFiles = map[string]string{"mod/.env": mb.String()}
+	if innerLong {
+		a.RawFiles["mod/inner/inner.env"] = ib.String()
+	} else {
+		a.RawFiles["mod/inner/.env"] = ib.String()
+	}
+	return a
+}
+
 func sortedTreeKeys(m tree) []string {
 	l := make([]string, 0, len(m))
 	for k := range m {
@@ -800,6 +976,28 @@ func genLeak(ctx *core.Ctx) {
 					ctx.Count("leak-exh-kinds-" + layout)
 					ctx.Add("c20.leak", m.leakArgs(env, cores, layout))
 				}
+				// the include has an environment of its own: every placement of the variables × syntax × configs included too
+				if sk == "environment" || ck == "environment" {
+					for mode := 0; mode < 4; mode++ {
+						for v := 0; v < 4; v++ {
+							mode := mode
+							ctx.Count("leak-exh-kinds-include-env")
+							modes := func(vn string) int {
+								if mode == 3 { // mixed: by position
+									return int(vn[len(vn)-1]-'0') % 3
+								}
+								return mode
+							}
+							ctx.Add("c20.leak", m.leakArgsIncEnv(env, cores, modes, v&1 == 1, v&2 == 2, nil, ctx.Count))
+							if mode != 0 {
+								k := n + v + mode
+								ctx.Count("leak-exh-kinds-include-env-nested")
+								ctx.Add("c20.leak", nestIncEnv(m.leakArgsIncEnv(env, cores, modes, v&1 == 1, v&2 == 2, nil, func(string) {}),
+									func(n int) int { k++; return k % n }, ctx.Count))
+							}
+						}
+					}
+				}
 			}
 		}
 	}
@@ -812,8 +1010,18 @@ func genLeak(ctx *core.Ctx) {
 	// random models
 	for i := 0; i < ctx.Pick(1400, 24000); i++ {
 		m, env, cores := randModel(ctx.Rng, false)
-		layout := []string{"single", "single", "override", "include"}[ctx.Rng.Intn(4)]
+		layout := []string{"single", "single", "override", "include", "include-env", "include-env"}[ctx.Rng.Intn(6)]
 		ctx.Count("leak-random-" + layout)
+		if layout == "include-env" {
+			r := ctx.Rng
+			a := m.leakArgsIncEnv(env, cores, func(string) int { return r.Intn(3) }, r.Intn(2) == 0, r.Intn(2) == 0, r, ctx.Count)
+			if r.Intn(3) == 0 {
+				ctx.Count("leak-random-include-env-nested")
+				a = nestIncEnv(a, r.Intn, ctx.Count)
+			}
+			ctx.Add("c20.leak", a)
+			continue
+		}
 		ctx.Add("c20.leak", m.leakArgs(env, cores, layout))
 	}
 	// malformed stream: random node kinds at resource positions, validation on or off
@@ -938,7 +1146,183 @@ func genEncRend(ctx *core.Ctx) {
 	}
 }
 
+// the include path, stage level: section kinds of the including and the included model × object shapes (resolved or
+// not, user-written carrier) × placement of the variable (top / env file / both / neither) × conflicts
+func genIncResolve(ctx *core.Ctx) {
+	objs := []any{
+		nil, "str", tree{}, tree{"environment": "E"}, tree{"environment": "F"}, tree{"environment": ""}, tree{"environment": 3},
+		tree{"environment": "E", "x-#value": "old", "content": "old"}, tree{"file": "./f"}, tree{"environment": "E", "x-foo": 1},
+	}
+	envPairs := [][2]map[string]string{
+		{{}, {}}, {{"E": "TOP"}, {}}, {{}, {"E": "FILE"}}, {{"E": "TOP"}, {"E": "FILE"}}, {{"F": "TOPF"}, {"E": "FILE: #x", "F": "shadowed"}},
+		{{"E": ""}, {"E": "FILE"}}, {{}, {"": "EMPTYNAME", "E": "a\nb"}},
+	}
+	sectKinds := []string{"absent", "null", "list", "str", "map"}
+	mk := func(kind string, m tree) (any, bool) {
+		switch kind {
+		case "null":
+			return nil, true
+		case "list":
+			return []any{tree{"environment": "E"}}, true
+		case "str":
+			return "x", true
+		case "map":
+			return m, true
+		}
+		return nil, false
+	}
+	for _, ep := range envPairs {
+		for _, mk1 := range sectKinds {
+			for _, mk2 := range sectKinds {
+				for i := range objs {
+					if (mk1 != "map" || mk2 != "map") && i > 1 {
+						break
+					}
+					o1, o2, o3 := objs[i], objs[(i*3+1)%len(objs)], objs[(i*7+2)%len(objs)]
+					main, inc := tree{}, tree{}
+					// `both` is declared on the two sides: equal for even i (skipped), different for odd i (conflict)
+					var o4 any = core.DeepCopyVal(o1)
+					if i%2 == 1 {
+						o4 = tree{"file": "./other"}
+					}
+					for _, sect := range []string{"secrets", "configs"} {
+						if v, ok := mk(mk1, tree{"m1": core.DeepCopyVal(o2), "both": o4}); ok {
+							main[sect] = v
+						}
+						if v, ok := mk(mk2, tree{"i1": core.DeepCopyVal(o1), "i2": core.DeepCopyVal(o3), "both": core.DeepCopyVal(o1)}); ok {
+							inc[sect] = v
+						}
+					}
+					ctx.Count("incResolve-exh-" + mk1 + "-" + mk2)
+					ctx.Add("c20.incResolve", incArgs{Main: enc(main), Inc: enc(inc), Env: ep[0], IncEnv: ep[1]})
+				}
+			}
+		}
+	}
+	for i := 0; i < ctx.Pick(1500, 30000); i++ {
+		r := ctx.Rng
+		vars := []string{"E", "F", "G", "", "e"}
+		top, file := map[string]string{}, map[string]string{}
+		for _, v := range vars {
+			switch r.Intn(4) {
+			case 0:
+				top[v] = fmt.Sprintf("T%d%s", r.Intn(100), c20Deco[r.Intn(len(c20Deco))][1])
+			case 1:
+				file[v] = fmt.Sprintf("F%d%s", r.Intn(100), c20Deco[r.Intn(len(c20Deco))][1])
+			case 2:
+				top[v], file[v] = fmt.Sprintf("T%d", r.Intn(100)), fmt.Sprintf("F%d", r.Intn(100))
+			}
+		}
+		randObj := func() any {
+			if r.Intn(8) == 0 {
+				return core.KindValue(core.Kinds[r.Intn(len(core.Kinds))], r)
+			}
+			o := tree{}
+			switch r.Intn(5) {
+			case 0:
+				o["file"] = "./f"
+			case 1:
+				o["external"] = true
+			case 2:
+				o["environment"] = core.KindValue(core.Kinds[r.Intn(len(core.Kinds))], r)
+			default:
+				o["environment"] = vars[r.Intn(len(vars))]
+			}
+			if r.Intn(5) == 0 {
+				o["x-#value"] = "user"
+			}
+			if r.Intn(5) == 0 {
+				o["content"] = "user"
+			}
+			return o
+		}
+		main, inc := tree{}, tree{}
+		for _, sect := range []string{"secrets", "configs"} {
+			for _, d := range []tree{main, inc} {
+				switch r.Intn(8) {
+				case 0:
+				case 1:
+					d[sect] = core.KindValue(core.Kinds[r.Intn(len(core.Kinds))], r)
+				default:
+					m := tree{}
+					for j := 0; j < 1+r.Intn(3); j++ {
+						m[[]string{"s1", "s2", "x-s", "a.b", ""}[r.Intn(5)]] = randObj()
+					}
+					d[sect] = m
+				}
+			}
+			// sometimes the same name on both sides, with the same definition
+			if mm, ok := main[sect].(tree); ok && r.Intn(3) == 0 {
+				if im, ok := inc[sect].(tree); ok {
+					for n, o := range im {
+						mm[n] = core.DeepCopyVal(o)
+						break
+					}
+				}
+			}
+		}
+		ctx.Count("incResolve-random")
+		ctx.Add("c20.incResolve", incArgs{Main: enc(main), Inc: enc(inc), Env: top, IncEnv: file})
+	}
+}
+
+// the include path, whole load: the models of the include-env layout of the oracle, against Secrets.loadDictInc
+func genFlowInc(ctx *core.Ctx) {
+	conv := func(a leakArgs, long bool) incArgs {
+		main := core.DecodeValRaw(a.Files["compose.yaml"]).(map[string]any)
+		delete(main, "include")
+		txt := a.RawFiles["mod/.env"]
+		if long {
+			txt = a.RawFiles["mod/mod.env"]
+		}
+		return incArgs{Main: enc(main), Inc: a.Files["mod/compose.yaml"], Env: a.Env, IncEnv: a.IncEnv, PName: a.PName, Long: long, EnvTxt: txt}
+	}
+	decos := [][2]string{c20Deco[0], c20Deco[1], c20Deco[5], c20Deco[20]}
+	for _, sk := range []string{"file", "environment", "external", "none"} {
+		for _, ck := range []string{"file", "environment", "content", "none"} {
+			if sk != "environment" && ck != "environment" {
+				continue
+			}
+			for _, extras := range []int{0, 4, 1 | 2 | 8, 16 | 4} {
+				for mode := 0; mode < 4; mode++ {
+					for v := 0; v < 4; v++ {
+						m := modelSpec{refs: (mode + v) % 3, pname: "proj"}
+						env, cores := map[string]string{}, map[string]string{}
+						deco := decos[(mode+v+extras)%len(decos)]
+						if sk != "none" {
+							m.secrets = []resSpec{{name: "s1", kind: sk, varn: "SVAR", extras: extras}}
+							if sk == "environment" && mode != 3 {
+								env["SVAR"], cores["SVAR"] = canary(1+v, deco)
+							}
+						}
+						if ck != "none" {
+							m.configs = []resSpec{{config: true, name: "c1", kind: ck, varn: "CVAR", extras: extras}}
+							if ck == "environment" && mode != 3 {
+								env["CVAR"], cores["CVAR"] = canary(100+v, deco)
+							}
+						}
+						mode := mode
+						ctx.Count("flowInc-exh")
+						a := m.leakArgsIncEnv(env, cores, func(string) int { return mode % 3 }, v&1 == 1, v&2 == 2, nil, func(string) {})
+						ctx.Add("c20.flowInc", conv(a, v&1 == 1))
+					}
+				}
+			}
+		}
+	}
+	for i := 0; i < ctx.Pick(500, 10000); i++ {
+		r := ctx.Rng
+		m, env, cores := randModel(r, false)
+		long := r.Intn(2) == 0
+		a := m.leakArgsIncEnv(env, cores, func(string) int { return r.Intn(3) }, long, r.Intn(2) == 0, r, func(string) {})
+		ctx.Count("flowInc-random")
+		ctx.Add("c20.flowInc", conv(a, long))
+	}
+}
+
 func runC20(ctx *core.Ctx) {
+	genIncResolve(ctx)
+	genFlowInc(ctx)
 	genBytes(ctx)
 	genEncRend(ctx)
 	genResolve(ctx)
